@@ -5,7 +5,7 @@
 import os, sys
 sys.path.insert(0, os.path.join(os.environ.get("AIOFTP_REPO", "/repo"), "src"))
 OBLIGATION = 'aioftp.server:Server.retr#SEQ::PathConditions.__call__.<locals>.wrapper/backend:exists:authorised'
-MODEL = {'rest!28': 'A', 'u_cur_base!40': 'OPath!val!1', 'restart_offset!10': 0, 'logged_done!14': False, 'real!44': 'OPath!val!0', 'u_cur_home!41': 'Unit("!3!")', 'block_size!0': 1, 'cwd!42': 'Unit("!2!")', 'virtual!45': 'Unit("!1!")', 'logged_present!13': True, 'user_done!12': True, 'current_directory_present!15': True, 'current_directory_done!16': True, 'passive_server_present!19': True, 'user_present!11': True}
+MODEL = {'auth_ok!27': False, 'rest!28': 'A', 'restart_offset!10': 0, 'u_cur_base!101': 'OPath!val!1', 'real!105': 'OPath!val!0', 'logged_done!14': False, 'block_size!0': 1, 'cwd!103': 'Unit("!2!")', 'virtual!106': 'Unit("!1!")', 'u_cur_home!102': 'Unit("!0!")', 'logged_present!13': True, 'user_done!12': True, 'current_directory_present!15': True, 'current_directory_done!16': True, 'passive_server_present!19': True, 'user_present!11': True}
 SOLVER_NOTE = ''
 
 print("obligation", OBLIGATION, "failed; no concrete failing input could be constructed automatically")
